@@ -46,7 +46,7 @@ REQUIRED_COUNTERS = [
     "c20.import.source.numpy-C", "c20.import.source.numpy-F", "c20.import.source.numpy-negative-stride",
     "c20.import.source.numpy-nonunit-stride", "c20.import.source.ctypes", "c20.import.source.bytes",
     "c20.import.outcome.converted", "c20.import.outcome.TypeError", "c20.import.supported-format",
-    "c20.import.unsupported-format", "c20.file.real", "c20.file.bytesio", "c20.export.write-through",
+    "c20.import.unsupported-format", "c20.import.rejected-then-released", "c20.file.real", "c20.file.bytesio", "c20.export.write-through",
     "c20.lifetime.view-outlives-matrix",
 ]
 WATCHDOG = {"quick": 600, "thorough": 3000}
@@ -545,7 +545,39 @@ def run(ctx):
     def conv_vals(vals, tc):
         return [{"i": int, "d": float, "z": complex}[tc](v) for v in vals]
 
+    def sc_import_rejected_releases(c, rng):
+        """a rejected import must not keep the source exported: afterwards the exporter can be released / resized"""
+        ba = bytearray(64)
+        how = rng.choice(["3-D", "3-D", "float32", "int16", "4-D"])
+        mv = {"3-D": lambda: memoryview(ba).cast("d", (2, 2, 2)), "4-D": lambda: memoryview(ba).cast("d", (2, 2, 2, 1)),
+              "float32": lambda: memoryview(ba).cast("f"), "int16": lambda: memoryview(ba).cast("h", (8, 4))}[how]()
+        via = rng.choice(["matrix", "setitem"])
+        c.cls("import-rejected", how, via)
+        c.desc.update({"what": "rejected import", "source": how, "via": via})
+        ctx.count("c20.import.rejected-then-released")
+        c.check()
+        try:
+            if via == "matrix":
+                matrix(mv)
+            else:
+                A = matrix(0.0, (8, 4)); A[:, :] = mv
+            c.fail("import:%s:unsupported-accepted" % how, "a %s buffer was accepted" % how); return
+        except TypeError:
+            pass
+        except NotImplementedError as e:
+            if via != "setitem":        # indexed assignment reports an unusable right-hand side this way (accepted there)
+                c.fail("import:%s:exception-class" % how, "raised %s: %s" % (type(e).__name__, e)); return
+        except Exception as e:      # noqa
+            c.fail("import:%s:exception-class" % how, "raised %s: %s" % (type(e).__name__, e)); return
+        try:
+            mv.release()
+            ba.extend(b"\0" * 8)
+        except BufferError as e:
+            c.fail("import:rejected-source-stays-exported", "after the rejected import of a %s buffer (%s) the source is still locked: %s" % (how, via, e))
+
     def sc_import_matrix(c, rng):
+        if rng.random() < 0.12:
+            return sc_import_rejected_releases(c, rng)
         desc, obj, view = make_source(rng)
         exp = expectation(view, obj)
         want_tc = rng.choice([None, None, None, "i", "d", "z"])
